@@ -51,6 +51,9 @@ type TaskProg struct {
 	// OpenExt: when set, the document is first stored as <dir>/<tag>-in.<ext> and read through the file
 	// helper astisub.Open (with the teletext options of Reader) instead of the simulated stream.
 	OpenExt string `json:"open_ext,omitempty"`
+	// MissingOpens: number of OpenFile calls on paths that do not exist, made first (each must fail, and must not
+	// cost anything that later calls need: descriptors, slots, locks).
+	MissingOpens int `json:"missing_opens,omitempty"`
 }
 
 // c20Dir is the directory file steps use; set before a scenario starts, read-only while tasks run.
@@ -69,6 +72,10 @@ type C20Scenario struct {
 	// threads with GOMAXPROCS=Procs, no scheduler. Not replay-exact; labelled as such wherever it is reported.
 	Real  bool `json:"real,omitempty"`
 	Procs int  `json:"procs,omitempty"`
+	// Sequential: a non-termination finding - the tasks of every phase run one after the other in a fresh process
+	// without the scheduler and must finish within HangTimeoutS seconds.
+	Sequential   bool `json:"sequential,omitempty"`
+	HangTimeoutS int  `json:"hang_timeout_s,omitempty"`
 }
 
 var c20Frozen = time.Date(2020, 5, 17, 10, 0, 0, 0, time.UTC)
@@ -97,6 +104,15 @@ func execTaskAt(p TaskProg, tag string) (rec []string) {
 		default:
 			sched.Point(-3)
 		}
+	}
+	if p.MissingOpens > 0 && c20Dir != "" {
+		failed := 0
+		for k := 0; k < p.MissingOpens; k++ {
+			if _, err, pn := fileOpen(filepath.Join(c20Dir, fmt.Sprintf("%s-missing-%d.srt", tag, k))); err != nil || pn != "" {
+				failed++
+			}
+		}
+		rec = append(rec, fmt.Sprintf("openmissing:%d:failed=%d", p.MissingOpens, failed))
 	}
 	sr := simio.NewReader(p.Doc, p.Plan)
 	sr.Hook = hook
@@ -465,6 +481,25 @@ func c20Child(cfg Config, kind string, raw []byte) int {
 			defer os.RemoveAll(dir)
 		}
 		resp.Records = execTask(*req.Task)
+	case "c20-seq":
+		// the tasks of every phase one after the other on this goroutine, no scheduler: used to tell a tree that
+		// really does not terminate from a scheduled run that was abandoned
+		for _, sc := range req.Scenarios {
+			if dir, err := os.MkdirTemp("", "c20-files-"); err == nil {
+				c20Dir = dir
+			}
+			var r ScenarioResult
+			for pi, phase := range sc.Phases {
+				pr := PhaseResult{Records: make([][]string, len(phase)), TraceHash: "sequential"}
+				for i, ti := range phase {
+					pr.Records[i] = execTaskAt(sc.Tasks[ti], fmt.Sprintf("p%d-t%d", pi, i))
+				}
+				r.Phases = append(r.Phases, pr)
+			}
+			os.RemoveAll(c20Dir)
+			c20Dir = ""
+			resp.Results = append(resp.Results, r)
+		}
 	case "c20-run":
 		sf := loadSiteFuncs(cfg.Sites)
 		for i, sc := range req.Scenarios {
@@ -725,7 +760,7 @@ func genTask(r *prng.R, pool *docPool, idx int, theme string) TaskProg {
 	if r.Bool(0.35) { // bias towards the teletext charset documents: the shared tables with conflicting patches
 		d = pool.docs[r.Intn(8)]
 	}
-	if theme != "" && theme != "writers" && theme != "files" { // themed scenario: every task works on the same format (different documents)
+	if theme != "" && theme != "writers" && theme != "files" && theme != "missing" { // themed scenario: every task works on the same format (different documents)
 		var same []corpus.Doc
 		for _, x := range pool.docs {
 			if x.Format == theme {
@@ -756,7 +791,7 @@ func genTask(r *prng.R, pool *docPool, idx int, theme string) TaskProg {
 	for i := 0; i < nw; i++ {
 		t.Writers = append(t.Writers, api.WriterFormats[r.Intn(len(api.WriterFormats))])
 	}
-	if (r.Bool(0.15) || theme == "files") && t.Reader != "ssa-opts" && t.Reader != "ssa-cb" {
+	if (r.Bool(0.15) || theme == "files" || theme == "missing") && t.Reader != "ssa-opts" && t.Reader != "ssa-cb" {
 		// through the file helper: the extension selects the reader, so only configurations Open can express
 		t.OpenExt = map[string]string{"srt": "srt", "vtt": "vtt", "ssa": r.Pick("ssa", "ass"), "stl": "stl", "ttml": "ttml", "ts": "ts"}[d.Format]
 	}
@@ -777,7 +812,7 @@ func genScenario(root *prng.R, pool *docPool, j int, lim c20Limits) C20Scenario 
 	sc := C20Scenario{Seed: r.Uint64(), Policy: r.Pick("uniform", "rr", "burst", "starve0"), Mean: float64(r.PickInt(1, 2, 5, 20, 100, 1000))}
 	// swarm: a third of the scenarios are themed (all tasks on one format, so that the same functions and
 	// tables are in use by several tasks at once), some are "writer storms" (all tasks write the same formats)
-	theme := r.Pick("", "", "", "", "ts", "ts", "stl", "vtt", "srt", "ssa", "ttml", "writers", "writers", "files")
+	theme := r.Pick("", "", "", "", "ts", "ts", "stl", "vtt", "srt", "ssa", "ttml", "writers", "writers", "files", "missing")
 	fileExt := r.Pick("srt", "vtt", "ssa", "stl", "ttml")
 	storm := []string{api.WriterFormats[r.Intn(len(api.WriterFormats))], api.WriterFormats[r.Intn(len(api.WriterFormats))]}
 	var all []int
@@ -788,6 +823,10 @@ func genScenario(root *prng.R, pool *docPool, j int, lim c20Limits) C20Scenario 
 		}
 		if theme == "files" { // every task uses the file helpers with the same extension in the same directory
 			t.FileWrites = []string{fileExt, fileExt}
+		}
+		if theme == "missing" { // many failing opens first, then the file helpers for real
+			t.MissingOpens = r.Range(20, 30)
+			t.FileWrites = []string{fileExt}
 		}
 		sc.Tasks = append(sc.Tasks, t)
 		all = append(all, i)
@@ -914,6 +953,28 @@ func (e *c20Eval) confirm(sc C20Scenario) ([]Violation, bool) {
 	return e.judge(sc, res[0], races[0])
 }
 
+// confirmHang decides whether the tree under test really fails to terminate on this scenario: fresh process, no
+// scheduler, tasks strictly one after the other. Every task alone did terminate (its pristine baseline exists).
+func (e *c20Eval) confirmHang(sc C20Scenario) *Violation {
+	for _, t := range sc.Tasks {
+		if pr := e.pristineOf(sc.Build, t); pr.err != nil {
+			return nil // not even alone: nothing this scenario adds (and no baseline to talk about)
+		}
+	}
+	timeout := 60
+	bin := c20Bin(e.cfg, sc.Build, false)
+	seq := sc
+	seq.Decisions, seq.Sequential, seq.HangTimeoutS = nil, true, timeout
+	_, _, err := runChildProc(e.cfg, bin, c20Req{Kind: "c20-seq", Scenarios: []C20Scenario{seq}}, time.Duration(timeout)*time.Second)
+	if err == nil || !strings.Contains(err.Error(), "timed out") {
+		return nil
+	}
+	b, _ := json.Marshal(seq)
+	return &Violation{Property: "C20", Class: "no-termination", Signature: "C20 no-termination (sequential, no scheduler)",
+		Detail: fmt.Sprintf("every task of this scenario terminates when it runs alone in a fresh process, but the %d tasks run one after the other in one process (no scheduler, no concurrency) did not finish within %d s: a call left something behind that a later call waits for", len(sc.Tasks), timeout),
+		Scenario: b}
+}
+
 // combine concatenates scenarios into one (tasks renumbered, phases appended).
 func combine(scs []C20Scenario) C20Scenario {
 	out := C20Scenario{Seed: scs[len(scs)-1].Seed, Policy: scs[len(scs)-1].Policy, Mean: scs[len(scs)-1].Mean, Build: scs[len(scs)-1].Build}
@@ -999,7 +1060,12 @@ func RunC20(cfg Config) (*ShardResult, error) {
 				}
 				vs, inc := e.judge(sc, r, races[i])
 				if inc {
-					res.Inconclusive++
+					if hv := e.confirmHang(sc); hv != nil {
+						res.Violations = append(res.Violations, *hv)
+						res.Extra["hangs_confirmed_sequentially"]++
+					} else {
+						res.Inconclusive++
+					}
 				}
 				if len(vs) == 0 {
 					continue
@@ -1125,6 +1191,9 @@ func replayC20(cfg Config, rf ReplayFile) (*Violation, error) {
 		return nil, err
 	}
 	e := &c20Eval{cfg: cfg, cache: map[string]pristine{}}
+	if sc.Sequential {
+		return e.confirmHang(sc), nil
+	}
 	if _, err := os.Stat(c20Bin(cfg, sc.Build, true)); err != nil {
 		return nil, fmt.Errorf("the %s race binary is not available: %v", sc.Build, err)
 	}
@@ -1145,7 +1214,7 @@ func replayC20(cfg Config, rf ReplayFile) (*Violation, error) {
 
 func minimiseC20(cfg Config, v Violation, budget Deadline) Violation {
 	var sc C20Scenario
-	if json.Unmarshal(v.Scenario, &sc) != nil {
+	if json.Unmarshal(v.Scenario, &sc) != nil || sc.Sequential {
 		return v
 	}
 	e := &c20Eval{cfg: cfg, cache: map[string]pristine{}}
